@@ -52,7 +52,21 @@ def state():
             out[f"{mod}:{cls}.{attr}"] = "unreadable: " + type(e).__name__
     return out
 
+def shared_instances():
+    """every module-level object of a shared class (the `Import` singletons: IMPORT_* constants = values of the
+    Import.from_full_path cache), by module attribute"""
+    from datamodel_code_generator.imports import Import
+    out = {}
+    for modname, mod in sorted(sys.modules.items()):
+        if not modname.startswith("datamodel_code_generator") or mod is None:
+            continue
+        for name, v in sorted(vars(mod).items()):
+            if isinstance(v, Import):
+                out[f"{modname}:{name}"] = repr(v)
+    return out
+
 before = state()
+shared_before = shared_instances() if job.get("class_state") else {}
 results = {}
 for case in job["cases"]:
     out = Path(job["outroot"]) / case["id"]
@@ -83,7 +97,10 @@ for case in job["cases"]:
         results[case["id"]]["cwd_changed"] = os.getcwd()
         os.chdir(job["cwd"])
 after = state()
-json.dump({"results": results, "state_changed": {k: [before[k], after[k]] for k in before if before[k] != after[k]}}, open(sys.argv[2], "w"))
+shared_after = shared_instances() if job.get("class_state") else {}
+changed = {k: [before[k], after[k]] for k in before if before[k] != after[k]}
+changed.update({k: [shared_before[k], shared_after.get(k, "<gone>")] for k in shared_before if shared_before[k] != shared_after.get(k)})
+json.dump({"results": results, "state_changed": changed, "shared_instances": len(shared_before)}, open(sys.argv[2], "w"))
 '''
 
 MAIN_CHILD = r'''
@@ -170,7 +187,7 @@ def make_cases(ck: Check, lab: Lab, n: int) -> list[dict]:
     rng = ck.rng.fork("cases")
     cases = []
     for i in range(n):
-        r = i % 6
+        r = i % 8
         cid = f"c{i}"
         model = rng.choice(e2e.MODEL_KINDS)
         opts = dict(rng.choice(OPTION_POOL))
@@ -182,6 +199,10 @@ def make_cases(ck: Check, lab: Lab, n: int) -> list[dict]:
             names = [f.split("/")[-1] for f in files]
             cases.append({**base, "kind": "dir", "input_file_type": "jsonschema", "path": lab.write_dir(cid, files), "modular": True,
                           "same_basename": len(set(names)) < len(names), "files": sorted(files)})
+        elif r == 6:   # property names equal to imported type names: triggers the import-alias pass on shared Import objects
+            cases.append({**base, "kind": "shadow", "input_file_type": "jsonschema", "text": json.dumps(docgen.json_schema_shadow(rng))})
+        elif r == 7:   # the same types under ordinary names: shows whatever an earlier run left behind in shared objects
+            cases.append({**base, "kind": "plain-types", "opts": {}, "input_file_type": "jsonschema", "text": json.dumps(docgen.json_schema_plain_types(rng))})
         else:
             opts = {k: v for k, v in opts.items() if k in ("snake_case_field", "use_standard_collections", "use_union_operator", "use_schema_description", "use_field_description")}
             cases.append({**base, "opts": opts, "kind": "graphql", "input_file_type": "graphql", "text": docgen.graphql_sdl(rng)})
@@ -192,9 +213,12 @@ def noise_cases(rng, k: int, tag: str) -> list[dict]:
     """earlier generate() calls with OTHER inputs and options: only there to leave their marks in the process"""
     out = []
     for i in range(k):
-        out.append({"id": f"noise-{tag}-{i}", "model": rng.choice(e2e.MODEL_KINDS), "opts": dict(rng.choice(OPTION_POOL)), "modular": False,
+        shadow = i % 2 == 0   # half of the foreign calls alias imports (property names = imported type names), all 24 names in the first
+        doc = docgen.json_schema_shadow(rng, len(docgen.SHADOW) if i == 0 else None) if shadow else docgen.json_schema(rng)
+        out.append({"id": f"noise-{tag}-{i}", "model": e2e.MODEL_KINDS[i % 2] if shadow else rng.choice(e2e.MODEL_KINDS),
+                    "opts": {} if shadow else dict(rng.choice(OPTION_POOL)), "modular": False,
                     "default_formatters": False, "noise": True, "kind": "jsonschema", "input_file_type": "jsonschema",
-                    "text": json.dumps(docgen.json_schema(rng))})
+                    "text": json.dumps(doc)})
     return out
 
 
@@ -273,13 +297,14 @@ def campaign_differential(ck: Check, lab: Lab, n_cases: int, n_fresh: int, seeds
             nz = noise_cases(rng, len(order) // 3 + 1, f"p{i}")
             for j, c in enumerate(order):
                 if j % 3 == 0 and nz:
-                    noisy.append(nz.pop())
+                    noisy.append(nz.pop(0))
                 noisy.append(c)
             order = noisy
         cwd = [str(lab.root / "w" / "a"), str(lab.root / "w" / "b" / "deeper" / "still"), "/tmp", str(lab.root)][i % 4]
         listing = ["sorted", "reverse", f"shuffle-{i}", f"shuffle-{i}b"][i % 4]
         cfgs[f"P{i}"] = dict(cases=[strip(c) for c in order], seed=seed, cwd=cwd, listing=listing)
-    fresh = rng.sample(cases, n_fresh)
+    plain = [c for c in cases if c["kind"] == "plain-types"]
+    fresh = plain[: n_fresh // 2] + rng.sample([c for c in cases if c not in plain[: n_fresh // 2]], n_fresh - len(plain[: n_fresh // 2]))
     for j, c in enumerate(fresh):
         cfgs[f"F{j}"] = dict(cases=[strip(c)], seed=0, cwd=str(lab.root / "w" / "a"), listing="sorted")
     names = list(cfgs)
@@ -291,9 +316,12 @@ def campaign_differential(ck: Check, lab: Lab, n_cases: int, n_fresh: int, seeds
             ck.infra_errors.append(f"child {nm} crashed: {r['crash']}")
     if ck.infra_errors:
         return
-    state_camp = ck.campaign("reviewed class-level objects (Gen/SetSites.classMutables) unchanged by the generate() calls of each batch process")
+    state_camp = ck.campaign("reviewed shared state unchanged by the generate() calls of each batch process: class-level objects (Gen/SetSites.classMutables) and every module-level Import singleton (values of the Import.from_full_path cache)")
     state_camp.evaluations += len(state) * sum(1 for nm in names if nm.startswith("P"))
     state_camp.distinct.update(f"{m}:{c}.{a}" for m, c, a in state)
+    n_shared = max((res[nm].get("shared_instances", 0) for nm in names), default=0)
+    state_camp.evaluations += n_shared * sum(1 for nm in names if nm.startswith("P"))
+    state_camp.hit("module-level Import singletons snapshotted", n_shared)
     for nm in names:
         camp.hit(f"process:{'batch' if nm.startswith('P') else 'fresh'}")
         for key, (b, a) in res[nm].get("state_changed", {}).items():
@@ -382,7 +410,7 @@ def campaign_main_history(ck: Check, lab: Lab) -> None:
 def search(ck: Check) -> None:
     """a table obligation broke: name the unjustified sites, then run a larger differential campaign"""
     try:
-        for what in ("sites", "cache", "state"):
+        for what in ("sites", "cache", "state", "writes"):
             rep = ck.driver.run([f"det.refute {what}"])[0]
             if rep.startswith("ok "):
                 groups = rep[3:].replace("(", "").split(")")
